@@ -66,6 +66,7 @@ static CO_ERR COTPdoNumWrite(struct CO_OBJ_T *obj, struct CO_NODE_T *node, void 
     const CO_OBJ_TYPE *uint8 = CO_TUNSIGNED8;
     CO_ERR    result = CO_ERR_NONE;
     CO_DICT  *cod;
+    CO_OBJ   *objm;
     uint32_t  id;
     uint32_t  mapentry;
     uint16_t  pmapidx;
@@ -99,6 +100,26 @@ static CO_ERR COTPdoNumWrite(struct CO_OBJ_T *obj, struct CO_NODE_T *node, void 
         result = CODictRdLong(cod, CO_DEV(pmapidx, i), &mapentry);
         if (result != CO_ERR_NONE) {
             return (CO_ERR_OBJ_MAP_TYPE);
+        }
+        /* the mapped object must exist and allow the mapping; dummy
+         * mappings (0002h..0007h) are possible in a RPDO, only */
+        if ((pmapidx <= COT_OBJECT_RPDO + COT_OBJECT_NUM) &&
+            ((mapentry >> 16) >= 2u) && ((mapentry >> 16) <= 7u)) {
+            objm = (CO_OBJ *)0;
+        } else {
+            objm = CODictFind(cod, mapentry);
+            if ((objm == (CO_OBJ *)0) || (CO_IS_PDOMAP(objm->Key) == 0)) {
+                return (CO_ERR_OBJ_MAP_TYPE);
+            }
+            if (pmapidx <= COT_OBJECT_RPDO + COT_OBJECT_NUM) {
+                if (CO_IS_WRITE(objm->Key) == 0) {
+                    return (CO_ERR_OBJ_MAP_TYPE);
+                }
+            } else {
+                if (CO_IS_READ(objm->Key) == 0) {
+                    return (CO_ERR_OBJ_MAP_TYPE);
+                }
+            }
         }
         mapbytes += ((uint8_t)mapentry) >> 3u;
     }
